@@ -43,11 +43,12 @@ BOOSTS = {
     "boostY": lambda R: (lambda v, b=R.real("beta", "beta"): v.boostY(beta=b)),
     "boostZ": lambda R: (lambda v, b=R.real("beta", "beta"): v.boostZ(beta=b)),
     "boostXg": lambda R: (lambda v, g=R.real("gamma", "gamma"): v.boostX(gamma=g)),
+    "boostYg": lambda R: (lambda v, g=R.real("gamma", "gamma"): v.boostY(gamma=g)),
     "boostZg": lambda R: (lambda v, g=R.real("gamma", "gamma"): v.boostZ(gamma=g)),
 }
 
 
-SPEC_AXIS = {"boostX": ("x", "beta"), "boostY": ("y", "beta"), "boostZ": ("z", "beta"), "boostXg": ("x", "gamma"), "boostZg": ("z", "gamma")}
+SPEC_AXIS = {"boostX": ("x", "beta"), "boostY": ("y", "beta"), "boostZ": ("z", "beta"), "boostXg": ("x", "gamma"), "boostYg": ("y", "gamma"), "boostZg": ("z", "gamma")}
 
 
 def f_invariance(system, which, bsys=None, spacelike=False):
@@ -322,8 +323,8 @@ def families(tier="quick"):
             add(f"p4-vs-beta3/{n}|{lanes.sysname(b4)}", f_p4_vs_beta3(s, b4), [K + "boost_p4", K + "boost_beta3", K + "to_beta3", "vector._methods.Lorentz.boost"])
         add(f"inverse-beta3/{n}|xy_z", f_inverse_beta3(s, ("xy", "z")), [K + "boost_beta3"])
         if s[2] == "tau":
-            for w in ("boostX", "boostZ"):
-                add(f"invariance-spacelike/{w}/{n}", f_invariance(s, w, spacelike=True), [K + f"{w}_beta", K + "transform4D", K + "t"])
+            for w in BOOSTS:
+                add(f"invariance-spacelike/{w}/{n}", f_invariance(s, w, spacelike=True), [K + (f"{w[:-1]}_gamma" if w.endswith("g") else f"{w}_beta"), K + "transform4D", K + "t"])
             add(f"invariance-spacelike/boost_beta3/{n}|xy_z", f_invariance(s, "boost_beta3", ("xy", "z"), spacelike=True), [K + "boost_beta3", K + "transform4D"])
             add(f"invariance-spacelike/boost_p4/{n}|xy_z_t", f_invariance(s, "boost_p4", ("xy", "z", "t"), spacelike=True), [K + "boost_p4", K + "transform4D"])
         for ax in "XYZ":
